@@ -1,0 +1,34 @@
+//go:build verif
+
+package docker
+
+import (
+	"errors"
+
+	"github.com/mutagen-io/mutagen/pkg/agent"
+)
+
+// VerifC36ChangeContainerStatus exposes dockerTransport.changeContainerStatus
+// (only reached for Windows containers otherwise) to the verification harness.
+func VerifC36ChangeContainerStatus(t agent.Transport, stop bool) error {
+	d, ok := t.(*dockerTransport)
+	if !ok {
+		return errors.New("not a Docker transport")
+	}
+	return d.changeContainerStatus(stop)
+}
+
+// VerifC36CommandArguments exposes the argument vector built by
+// dockerTransport.command (without probing the container or starting anything)
+// to the verification harness.
+func VerifC36CommandArguments(t agent.Transport, command, workingDirectory, user string) ([]string, error) {
+	d, ok := t.(*dockerTransport)
+	if !ok {
+		return nil, errors.New("not a Docker transport")
+	}
+	c, err := d.command(command, workingDirectory, user)
+	if err != nil {
+		return nil, err
+	}
+	return c.Args, nil
+}
